@@ -96,7 +96,7 @@ pub const FUNCS: [&str; 8] = ["low", "high", "byte2", "byte3", "byte4", "lwrd", 
 
 #[derive(Clone, PartialEq, Eq, Debug)]
 pub enum E {
-    /// non-negative literal and how it is spelled: 0 dec, 1 0x, 2 $, 3 0b, 4 octal, 5 char
+    /// non-negative literal and how it is spelled: 0 dec, 1 0x (lower), 2 $ (upper), 3 0b, 4 octal, 5 char, 6 0x (upper), 7 $ (lower)
     Lit(i64, u8),
     Sym(String),
     Pc,
@@ -187,6 +187,8 @@ pub fn lit_text(v: i64, kind: u8) -> String {
         3 => format!("0b{:b}", v),
         4 => format!("0{:o}", v),
         5 => format!("'{}'", (v as u8) as char),
+        6 => format!("0x{:X}", v),
+        7 => format!("${:x}", v),
         _ => format!("{}", v),
     }
 }
@@ -425,8 +427,20 @@ pub fn rand_lit(rng: &mut Rng) -> E {
     };
     let kind = match rng.below(9) {
         0 | 1 | 2 => 0,
-        3 => 1,
-        4 => 2,
+        3 => {
+            if rng.chance(1, 2) {
+                1
+            } else {
+                6
+            }
+        }
+        4 => {
+            if rng.chance(1, 2) {
+                2
+            } else {
+                7
+            }
+        }
         5 => {
             if v < (1 << 20) {
                 3
